@@ -119,6 +119,7 @@ type call struct {
 	res    chan sqlResult
 	zkc    *memConn // for zk dial
 	stk uint64 // hash of the submitting goroutine's call stack: goroutine-stable tie-break
+	it  *iterRec // state-handler invocation of src that was open when the call was issued
 	// filled by controller
 	key  string // stable identity incl. occurrence number
 	done bool
